@@ -89,6 +89,16 @@ async def boom(*a: Any, **k: Any) -> None:
     raise RuntimeError("boom")
 
 
+async def boom_key(*a: Any, **k: Any) -> None:
+    _rec("boom_key", a, k)
+    raise KeyError("no such key")          # str(KeyError('x')) is "'x'", not 'x'
+
+
+async def boom_os(*a: Any, **k: Any) -> None:
+    _rec("boom_os", a, k)
+    raise OSError(2, "No such file", "thing.txt")      # several arguments, a __str__ of its own
+
+
 def ecb(task_id: int) -> None:
     cbs.append(("e", task_id))
 
